@@ -510,6 +510,45 @@ func runC16(r *Run) {
 		wildcardOffsetsOnTheirString(r, r.Fn(csrfPkg, "New"), "New:wildcard-position-on-the-same-string")
 	})
 
+	r.rule("R11", "a configured token lifetime is kept: in configDefault the default IdleTimeout replaces the configured one only behind a test for `not positive` (a comparison of the field with 0) — a threshold above zero replaces a legitimate short lifetime by the 30-minute default, and a token presented well after its configured lifetime is still accepted (E8)", func() {
+		f := r.Fn(csrfPkg, "configDefault")
+		n := 0
+		for _, fr := range fieldRefs(f) {
+			if !fr.Write || fr.Name != "csrf.Config.IdleTimeout" {
+				continue
+			}
+			n++
+			ok := false
+			for _, br := range branchesIn(f) {
+				if !loadOfField(br.Info.Root, "csrf.Config.IdleTimeout") {
+					continue
+				}
+				k, isK := constInt(br.Info.Const)
+				if !isK {
+					continue
+				}
+				var slot int
+				var okSlot bool
+				switch br.Info.Op {
+				case token.LEQ, token.EQL:
+					slot, okSlot = br.slotWhenRel(true), k <= 0
+				case token.LSS:
+					slot, okSlot = br.slotWhenRel(true), k <= 1
+				case token.GTR:
+					slot, okSlot = br.slotWhenRel(false), k <= 0
+				case token.GEQ:
+					slot, okSlot = br.slotWhenRel(false), k <= 1
+				}
+				if okSlot && dom(br.If.Block().Succs[slot], fr.Instr.Block()) {
+					ok = true
+				}
+			}
+			r.check(ok, fmt.Sprintf("configDefault:IdleTimeout-default#%d:only-when-not-positive", n), r.pos(fr.Instr), "the default is stored only behind `IdleTimeout <= 0`",
+				"the default IdleTimeout replaces a positive configured value (the guard compares with something above zero): Config{IdleTimeout: 400ms} silently becomes 30 minutes — a token is accepted long after the lifetime the operator set")
+		}
+		r.atLeast("IdleTimeout defaults in csrf configDefault", n, 1)
+	})
+
 	r.rule("R10", "an origin is accepted only by comparison: originMatchesHost / refererMatchesHost answer nil only behind a string equality (also slices.Contains), a wildcard match, or a same-package predicate that itself answers true only behind those (E1)", func() {
 		var acceptEdges func(f *ssa.Function, depth int) map[edge]bool
 		isStr := func(v ssa.Value) bool {
